@@ -70,11 +70,14 @@ pub fn gen_solver<VS: HSet>(sink: &mut Sink, prop: &str, thorough: bool, seed: u
     let n_random = if light { n_random / 10 } else { n_random };
     // wide runs: incompatibilities with dozens of terms
     if VS::KIND == "range" && !light {
-        let ns: &[u32] = if thorough { &[8, 15, 16, 17, 23, 24, 25, 31, 32, 33, 40] } else { &[8, 24, 33] };
-        for &n in ns {
+        let mut ns: Vec<u32> = if thorough { vec![8, 15, 16, 17, 23, 24, 25, 31, 32, 33, 40] } else { vec![8, 24, 33] };
+        ns.extend(crate::util::around_thresholds(300).iter().map(|n| *n as u32).filter(|n| *n >= 3));
+        ns.sort();
+        ns.dedup();
+        for &n in &ns {
             for solvable in [true, false] {
                 let r = SolveReq { debug, root: "a_root".into(), rv: 1, reg: wide_registry::<VS>(n, solvable), strat: Strat::Alphabetical, fault: Fault::None };
-                push_solve(sink, prop, &r);
+                crate::util::quiet(|| push_solve(sink, prop, &r));
             }
         }
         sink.notes.push(format!("wide runs: a hub with n leaves constraining one package, n in {:?}, solvable and not: learned incompatibilities with up to n + 2 terms", ns));
@@ -90,7 +93,7 @@ pub fn gen_solver<VS: HSet>(sink: &mut Sink, prop: &str, thorough: bool, seed: u
             let rvs = reg.versions("root");
             let rv = if rvs.is_empty() { 1 } else { rvs[rng.below(rvs.len() as u64) as usize] };
             let r = SolveReq { debug, root: "root".into(), rv, reg, strat: Strat::FillersFirst, fault: Fault::None };
-            let e = eval_solve(&r);
+            let e = crate::util::quiet(|| eval_solve(&r));
             let dls: Vec<u32> = e.imp.split("ps;dl=").skip(1).filter_map(|t| t.split(|c: char| !c.is_ascii_digit()).next().and_then(|d| d.parse().ok())).collect();
             let crosses = dls.windows(2).any(|w| w[0] >= 256 && w[0] <= 262 && w[1] < 250 && w[1] > 1);
             if crosses || attempt == 11 {
@@ -302,6 +305,7 @@ pub fn gen_trees(sink: &mut Sink, prop: &str, thorough: bool, seed: u64, debug: 
     }
     let n_syn = crate::util::scaled(if thorough { 200_000 } else { 8_000 });
     let mut made = 0u64;
+    let mut relabelled = 0u64;
     for _ in 0..n_syn {
         if let Some(t) = crate::report::synthetic_tree(&mut rng) {
             made += 1;
@@ -311,8 +315,45 @@ pub fn gen_trees(sink: &mut Sink, prop: &str, thorough: bool, seed: u64, debug: 
             } else {
                 sink.push(crate::eval::eval_line(&format!("collapse|{}|-|root|1", toks)));
             }
+            // the same DAG with its shared ids renamed injectively to values that are all congruent modulo
+            // 2^8, 2^16 and 2^32 (`shared_id` is a public `Option<usize>`): ids are names, nothing may depend
+            // on their size or on a truncation of them
+            if made % 4 == 0 && toks.matches("!D!").count() + usize::from(toks.starts_with("D!")) >= 2 {
+                let mut map = std::collections::BTreeMap::new();
+                let t2 = relabel_ids(&t, &mut map);
+                if map.len() >= 2 {
+                    relabelled += 1;
+                    let toks2 = tree_tokens(&t2);
+                    if prop == "C08" {
+                        sink.push(crate::eval::eval_line(&format!("report|{}|-", toks2)));
+                    } else {
+                        sink.push(crate::eval::eval_line(&format!("collapse|{}|-|root|1", toks2)));
+                    }
+                }
+            }
         }
     }
+    sink.notes.push(format!("{} of the synthetic DAGs again with their shared ids renamed to values congruent modulo 2^32 (7 + k * 2^32)", relabelled));
     let _ = debug;
     sink.notes.push(format!("{} NoSolution trees from solver runs, {} synthetic DAGs of sound resolution steps with arbitrary sharing", n_trees, made));
+}
+
+/// rename the shared ids of a tree injectively: the k-th distinct id becomes 7 + k * 2^32
+fn relabel_ids(t: &crate::treeck::Tree<Range<u32>>, map: &mut std::collections::BTreeMap<usize, usize>) -> crate::treeck::Tree<Range<u32>> {
+    use pubgrub::{DerivationTree, Derived};
+    match t {
+        DerivationTree::External(e) => DerivationTree::External(e.clone()),
+        DerivationTree::Derived(d) => {
+            let sid = d.shared_id.map(|i| {
+                let n = map.len();
+                *map.entry(i).or_insert(7 + n * (1usize << 32))
+            });
+            DerivationTree::Derived(Derived {
+                terms: d.terms.clone(),
+                shared_id: sid,
+                cause1: std::sync::Arc::new(relabel_ids(&d.cause1, map)),
+                cause2: std::sync::Arc::new(relabel_ids(&d.cause2, map)),
+            })
+        }
+    }
 }
